@@ -29,6 +29,13 @@ POOL = [
     ("arabic-digits", "١٢٣".encode()), ("64k-digits", b"9" * 65536), ("binary", b"\x00\xff\xfe\x80"),
     ("crlf", b"\r\n"), ("star", b"*"), ("minus", b"-"), ("plus-sign", b"+"), ("dollar", b"$"), ("paren", b"(1"),
     ("big-word", b"a" * 70000),
+    # well-formed prefixes of the argument grammars (stream IDs, integers, floats, range bounds, the
+    # special one-byte IDs) with one byte that is not UTF-8 spliced in: parsers that turn the argument
+    # into a str first meet a continuation byte right after an ASCII delimiter, a lead byte at the end...
+    ("id-cont-after-dash", b"5-\x80"), ("id-cont-before-dash", b"5\x80-1"), ("id-lead-at-end", b"5-1\xf0"),
+    ("id-lead-first", b"\xf0-1"), ("id-cont-then-digit", b"5-\xbf1"), ("int-with-cont", b"1\x80"),
+    ("float-with-cont", b"1.\x805"), ("excl-with-cont", b"(\x801"), ("lex-with-cont", b"[\x80"),
+    ("dash-cont", b"-\x80"), ("plus-cont", b"+\x80"), ("dollar-cont", b"$\x80"), ("star-cont", b"*\x80"), ("gt-cont", b">\x80"),
 ]
 TARGET_SEED = [
     ["SET", "c:str", "canary-value"], ["SET", "c:int", "10"], ["SET", "c:empty", ""],
